@@ -580,7 +580,8 @@ pub struct RealEdge {
 }
 
 pub fn c07_real_edge_strategy() -> BoxedStrategy<RealEdge> {
-    (prop_oneof![Just(1u64), Just(2u64), Just(20u64), Just(40u64)], prop_oneof![Just(150u64), Just(400u64), Just(700u64), Just(1200u64), Just(3000u64)], 0u64..4, any::<bool>())
+    // (u64::MAX stands for Duration::MAX: "no limit, but unblock() may end the call")
+    (prop_oneof![2 => Just(1u64), 2 => Just(2u64), 2 => Just(20u64), 2 => Just(40u64), 1 => Just(u64::MAX)], prop_oneof![Just(150u64), Just(400u64), Just(700u64), Just(1200u64), Just(3000u64)], 0u64..4, any::<bool>())
         .prop_map(|(timeout_ms, before_us, stagger_ms, tcp)| RealEdge { timeout_ms, before_us, stagger_ms: stagger_ms.min(timeout_ms / 2), tcp })
         .boxed()
 }
@@ -610,7 +611,8 @@ pub fn c07_real_edge_test(_w: &mut (), c: &RealEdge) -> Verdict {
         let _ = rq.respond(tiny_http::Response::from_string("ok"));
     };
     let t0 = Instant::now();
-    let timeout = Duration::from_millis(c.timeout_ms);
+    let forever = c.timeout_ms == u64::MAX;
+    let timeout = if forever { Duration::MAX } else { Duration::from_millis(c.timeout_ms) };
     let ta = {
         let (s, got, a_back, a_empty) = (server.clone(), got.clone(), a_back.clone(), a_empty.clone());
         std::thread::spawn(move || {
@@ -636,7 +638,7 @@ pub fn c07_real_edge_test(_w: &mut (), c: &RealEdge) -> Verdict {
         })
     };
     // write the request shortly before the timed receiver's timeout runs out
-    let at = timeout.saturating_sub(Duration::from_micros(c.before_us));
+    let at = if forever { Duration::from_millis(8) } else { timeout.saturating_sub(Duration::from_micros(c.before_us)) };
     while t0.elapsed() < at {
         std::hint::spin_loop();
     }
@@ -667,6 +669,21 @@ pub fn c07_real_edge_test(_w: &mut (), c: &RealEdge) -> Verdict {
     // teardown: release the blocking receiver if it is still there
     if !b_back.load(Ordering::SeqCst) {
         server.unblock();
+    }
+    if forever {
+        // the receiver without a limit: released by unblock() like a recv()
+        let t3 = Instant::now();
+        while !(a_back.load(Ordering::SeqCst) && b_back.load(Ordering::SeqCst)) && t3.elapsed() < Duration::from_secs(3) {
+            server.unblock();
+            std::thread::sleep(Duration::from_millis(5));
+        }
+        if !a_back.load(Ordering::SeqCst) {
+            verdict = verdict.or(Some(fail("C07/real/receive-without-limit-never-returned", "recv_timeout(Duration::MAX) was neither given the request nor released by unblock() within 3 s".to_string())));
+            // (its thread cannot be joined)
+            drop(cl);
+            let _ = std::fs::remove_file(&path);
+            return verdict.unwrap();
+        }
     }
     let _ = ta.join();
     let t2 = Instant::now();
@@ -847,4 +864,80 @@ pub fn c08_slow_test(_w: &mut (), c: &SlowBody) -> Verdict {
             _ => Verdict::Pass(classes(Good::trivial()).class("slow-once-not-repeated")),
         },
     }
+}
+
+// ------------------------------------------------------------------------------------------
+// C02, peer address: connections that sent a complete request and were reset before the server
+// accepted them (getpeername fails on those), beside ordinary ones.  Whatever is delivered over
+// TCP carries its client's socket address.
+
+#[derive(Clone, Debug, Serialize, Deserialize)]
+pub struct ResetBeforeAccept {
+    pub resets: usize,
+    pub live: usize,
+}
+
+pub fn c02_reset_strategy() -> BoxedStrategy<ResetBeforeAccept> {
+    (1usize..5, 1usize..3).prop_map(|(resets, live)| ResetBeforeAccept { resets, live }).boxed()
+}
+
+pub fn c02_reset_test(_w: &mut (), c: &ResetBeforeAccept) -> Verdict {
+    use std::os::unix::io::AsRawFd;
+    let Ok(listener) = std::net::TcpListener::bind("127.0.0.1:0") else { return Verdict::Pass(Good::trivial().class("scenario-not-set-up")) };
+    let Ok(addr) = listener.local_addr() else { return Verdict::Pass(Good::trivial().class("scenario-not-set-up")) };
+    let mut sent: Vec<(String, String)> = vec![]; // (url, client address)
+    for i in 0..c.resets {
+        let Ok(mut s) = std::net::TcpStream::connect(addr) else { continue };
+        let url = format!("/reset/{}", i);
+        if let Ok(a) = s.local_addr() {
+            sent.push((url.clone(), a.to_string()));
+        }
+        let _ = s.write_all(format!("GET {} HTTP/1.1\r\nHost: h\r\n\r\n", url).as_bytes());
+        let l = libc::linger { l_onoff: 1, l_linger: 0 };
+        unsafe {
+            libc::setsockopt(s.as_raw_fd(), libc::SOL_SOCKET, libc::SO_LINGER, &l as *const _ as *const libc::c_void, std::mem::size_of::<libc::linger>() as libc::socklen_t);
+        }
+        drop(s); // RST while nobody has accepted the connection
+    }
+    let mut live = vec![];
+    for j in 0..c.live {
+        let Ok(mut s) = std::net::TcpStream::connect(addr) else { continue };
+        let url = format!("/live/{}", j);
+        if let Ok(a) = s.local_addr() {
+            sent.push((url.clone(), a.to_string()));
+        }
+        let _ = s.write_all(format!("GET {} HTTP/1.1\r\nHost: h\r\n\r\n", url).as_bytes());
+        live.push(s);
+    }
+    std::thread::sleep(Duration::from_millis(20));
+    let Ok(server) = tiny_http::Server::from_listener(listener, None) else { return Verdict::Pass(Good::trivial().class("scenario-not-set-up")) };
+    let mut delivered: Vec<(String, Option<String>)> = vec![];
+    let t0 = Instant::now();
+    while t0.elapsed() < Duration::from_secs(3) {
+        match server.recv_timeout(Duration::from_millis(250)) {
+            Ok(Some(rq)) => {
+                delivered.push((rq.url().to_string(), rq.remote_addr().map(|a| a.to_string())));
+                let _ = rq.respond(tiny_http::Response::from_string("ok"));
+            }
+            Ok(None) => {
+                if delivered.iter().filter(|d| d.0.starts_with("/live/")).count() >= live.len() {
+                    break;
+                }
+            }
+            Err(_) => break,
+        }
+    }
+    drop(live);
+    drop(server);
+    for (url, peer) in &delivered {
+        let want = sent.iter().find(|s| &s.0 == url).map(|s| s.1.clone());
+        match (peer, want) {
+            (None, _) => return fail("C02/real/tcp-request-without-peer-address", format!("request {:?} was delivered over TCP with remote_addr() = None (its connection had been reset before it was accepted)", url)),
+            (Some(p), Some(w)) if *p != w => return fail("C02/real/wrong-peer-address", format!("request {:?}: remote_addr() = {}, the client's socket address is {}", url, p, w)),
+            _ => {}
+        }
+    }
+    let any_reset_delivered = delivered.iter().any(|d| d.0.starts_with("/reset/"));
+    let all_live = delivered.iter().filter(|d| d.0.starts_with("/live/")).count() >= c.live;
+    Verdict::Pass(if all_live { Good::nontrivial() } else { Good::trivial() }.class(format!("resets={}", c.resets)).class_if(any_reset_delivered, "request-of-a-reset-connection-delivered").class_if(!all_live, "live-request-missing"))
 }
